@@ -234,9 +234,9 @@ func TestVerifC35(t *testing.T) {
 			if !bad {
 				outcomes[fmt.Sprintf("ok after %d peer requests", script.served)]++
 			}
-		case <-time.After(30 * time.Second):
+		case <-time.After(120 * time.Second):
 			violated = true
-			r.Violation("C35:accept-hangs", fmt.Sprintf("Accept did not return within 30 s [%s]", c), rep)
+			r.Violation("C35:accept-hangs", fmt.Sprintf("Accept did not return within 120 s [%s]", c), rep)
 		}
 	}
 	r.Sample(map[string]any{"case": cases[len(cases)/2].String()})
@@ -245,6 +245,6 @@ func TestVerifC35(t *testing.T) {
 	r.Cov["distinct_outcomes"] = len(outcomes)
 	r.Cov["outcomes"] = outcomes
 	r.Cov["rule"] = fmt.Sprintf("blocks of 2 certificates x {local,remote}^2 x every peer-answer sequence of length <= %d over {transport error, unparsable payload, different validly signed chunk} followed by correct answers (the script is consumed across both validators, so the randomly chosen peer does not matter)", maxLen)
-	r.Assumptions = []string{"2 validators (quorum 1/1) + 1 observer with an empty store", "native scheduling (avalanchego's p2p test network is not instrumented); the explored dimension is the environment's answers", "30 s hang watchdog (a correct Accept returns in milliseconds)"}
+	r.Assumptions = []string{"2 validators (quorum 1/1) + 1 observer with an empty store", "native scheduling (avalanchego's p2p test network is not instrumented); the explored dimension is the environment's answers", "120 s hang watchdog (a correct Accept returns in milliseconds)"}
 	r.Finish()
 }
